@@ -703,3 +703,7 @@ PROPS["C10"]["claim"] += (" HISTORY FORM about the translated code (Proofs/EndTo
 PROPS["C03"]["proofs"] = PROPS["C03"]["proofs"] + ["Bmc.Proofs.EndToEnd.WholeC03"]
 PROPS["C03"]["claim"] += (" WHOLE (Proofs/EndToEnd/WholeC03.lean): generated_session_then_history_opens — the session newV2Session AS TRANSLATED returns against the specification's BMC, then ANY history on SendCommand AS TRANSLATED: "
                           "every datagram sent opens AT THAT BMC under the K1 / K2 it derived for itself (AuthCode verifies, flags set, its session ID, payload decrypts to the caller's command).")
+PROPS["C17"]["proofs"] = PROPS["C17"]["proofs"] + ["Bmc.Proofs.EndToEnd.HistoryC17"]
+PROPS["C17"]["claim"] += (" HISTORY FORM about the translated code (Proofs/EndToEnd/HistoryC17.lean): generated_history_ignores_what_the_connection_holds — two connection values that agree on the sequence counter and differ "
+                          "ARBITRARILY in layer structs, decoded-layer list, buffer and metric events, the same history of commands run on each by SendCommand AS TRANSLATED (each call on the value the previous one left): "
+                          "same datagrams and same return value, call for call (generatedResults_eq: the returns are the hand model's).")
